@@ -493,26 +493,47 @@ def parseQuotedDec (v : String) : Option Int :=
 def parseQuotedAddr (v : String) : Option Addr :=
   (unquote v).bind fun cs => if cs.length == 40 then some (String.ofList cs) else none
 
-/-- set the owner of one key in the access-control list (first match; appended if the key is new) -/
-def aclSet : List (String × Addr) → String → Addr → List (String × Addr)
-  | [], k, o => [(k, o)]
-  | (k', o') :: rest, k, o => if k' == k then (k, o) :: rest else (k', o') :: aclSet rest k o
+/-- strip a literal prefix -/
+def stripPrefix : List Char → List Char → Option (List Char)
+  | [], cs => some cs
+  | p :: ps, c :: cs => if p == c then stripPrefix ps cs else none
+  | _ :: _, [] => none
 
-/-- remove a key from the access-control list (a new list that omits it) -/
-def aclDrop (l : List (String × Addr)) (k : String) : List (String × Addr) := l.filter (fun e => e.1 != k)
+/-- the characters up to the next double quote, and what follows that quote -/
+def untilQuote (cs : List Char) : Option (List Char × List Char) :=
+  match cs.dropWhile (· != '"') with
+  | _ :: rest => some (cs.takeWhile (· != '"'), rest)
+  | [] => none
 
-/-- the model's reading of a new access-control list: the line protocol describes it as `<key>=<new owner>`, the one
-entry in which it differs from the current list (the implementation receives the full list as JSON) -/
-def parseAclChange (val : String) : Option (String × Addr) :=
-  match val.splitOn "=" with
-  | [k, o] => if k == "" then none else some (k, o)
-  | _ => none
+/-- an owner as `Address.UnmarshalJSON` accepts it and `String()` prints it: empty, or 40 lower-case hex digits -/
+def aclOwnerOK (o : List Char) : Bool :=
+  o.isEmpty || (o.length == 40 && o.all fun c => c.isDigit || ('a' ≤ c && c ≤ 'f'))
+
+/-- entries `{"acl_key":"K","address":"A"}` separated by commas, up to the closing `]}` -/
+def parseAclEntries : Nat → List Char → Option (List (String × Addr))
+  | 0, _ => none
+  | fuel + 1, cs =>
+    (stripPrefix "{\"acl_key\":\"".toList cs).bind fun r1 =>
+    (untilQuote r1).bind fun (k, r2) =>
+    (stripPrefix ",\"address\":\"".toList r2).bind fun r3 =>
+    (untilQuote r3).bind fun (o, r4) =>
+    if !aclOwnerOK o then none else
+    match r4 with
+    | ['}', ']', '}'] => some [(String.ofList k, String.ofList o)]
+    | '}' :: ',' :: r5 => (parseAclEntries fuel r5).map ((String.ofList k, String.ofList o) :: ·)
+    | _ => none
+
+/-- the access-control list in the canonical amino JSON the parameter store holds
+(`{"type":"gov/non_map_acl","value":[{"acl_key":"…","address":"…"},…]}`); the whole list, in order -/
+def parseAcl (v : String) : Option (List (String × Addr)) :=
+  (stripPrefix "{\"type\":\"gov/non_map_acl\",\"value\":[".toList v.toList).bind fun r =>
+    if r == [']', '}'] then some [] else parseAclEntries r.length r
 
 /-- `Subspace.Update` for the parameters the model tracks; a value that does not decode leaves
 the parameter unchanged (the error is ignored by `ModifyParam`). -/
 def applyParam (s : State) (key val : String) : State :=
   match key with
-  | "gov/acl" => match parseAclChange val with | some (k, o) => { s with acl := if o == "" then aclDrop s.acl k else aclSet s.acl k o } | none => s
+  | "gov/acl" => match parseAcl val with | some l => { s with acl := l } | none => s
   | "pos/MaxValidators" => match parseQuotedInt val with | some n => { s with p := { s.p with maxVals := n } } | none => s
   | "pos/StakeMinimum" => match parseQuotedInt val with | some n => { s with p := { s.p with minStake := n } } | none => s
   | "pos/UnstakingTime" => match parseQuotedInt val with | some n => { s with p := { s.p with unstakingTime := n } } | none => s
